@@ -17,6 +17,7 @@ func init() {
 			"the key list the output loop walks is computed from the window in this step; since/until of openLog (C02); PV-RESET step stamped",
 			"FE-BOOL IsInstant; PV-PAIR: a sample carries the label set built for its own entry",
 			"FE-CLASS avg: an infinite running average is kept for finite/same-sign values; AF point time: float64(UnixMilli())/1000, conversion before division",
+			"PV-NUM sum: Apply is state += v, Result the state",
 		},
 		NotDecided: []string{"numeric results of the aggregators (Welford, quantile interpolation)", "that the storage delivers samples in time order", "equality instant = range at T beyond the shared code path"},
 		Rules: func(r *Run) {
@@ -36,6 +37,7 @@ func init() {
 			ruleIsInstant(r)
 			ruleAvgInfinityGuard(r)
 			ruleStepTimestampMillis(r)
+			ruleSumAggregatorPlain(r)
 		},
 	})
 }
